@@ -100,21 +100,27 @@ def analyse_text(h, mop, text: str, clauses):
                     break
             problems.append(("crash", bad[0] if bad else None, "no exception", bad[1] if bad else repr(e)))
         return problems, cnt
-    real = [(i.addr, i.mnemonic, tuple(i.operands)) for i in parsed if i.mnemonic != "empty"]
+    parsed_list = [(i.addr, i.mnemonic, tuple(i.operands)) for i in parsed if i.mnemonic != "empty"]
+    try:
+        dec = rm.decode(stream)
+        dec_err = None
+    except ValueError as e:
+        dec, dec_err = None, str(e)
     # ---- C10 encoding: the stream decodes to exactly the parsed list
     if "encoding" in clauses:
-        try:
-            dec = rm.decode(stream)
-            if dec != real:
-                if len(dec) != len(real):
-                    problems.append(("encoding", None, f"{len(real)} records", f"{len(dec)} records"))
-                for a, b in zip(dec, real):
-                    if a != b:
-                        problems.append(("encoding", _line_of(lines, cls, b), b, a))
-            elif rm.encode(dec) != stream:
-                problems.append(("encoding", None, "encode(decode(stream)) == stream", "differs"))
-        except ValueError as e:
-            problems.append(("encoding", None, "decodable stream", str(e)))
+        if dec is None:
+            problems.append(("encoding", None, "decodable stream", dec_err))
+        elif dec != parsed_list:
+            if len(dec) != len(parsed_list):
+                problems.append(("encoding", None, f"{len(parsed_list)} records", f"{len(dec)} records"))
+            for a, b in zip(dec, parsed_list):
+                if a != b:
+                    problems.append(("encoding", _line_of(lines, cls, b), b, a))
+        elif rm.encode(dec) != stream:
+            problems.append(("encoding", None, "encode(decode(stream)) == stream", "differs"))
+    # C08/C09 speak about the instruction STREAM patterns are matched against: use its records when it decodes,
+    # the parse list otherwise (an undecodable stream is C10's finding)
+    real = dec if dec is not None else parsed_list
     # ---- C08 count / order / address / mnemonic
     if "count" in clauses or "mnemonic" in clauses or "operands" in clauses:
         if len(real) != len(exp) or any(r[0] != cls[i][1] for r, (i, _) in zip(real, exp)):
@@ -216,3 +222,141 @@ def replay_line(case, h, clauses):
     problems, _ = analyse_text(h, h.mop(_TRIVIAL_RULE), text, clauses)
     problems = [p for p in problems if p[0] == case["clause"]]
     return bool(problems), str(problems)
+
+
+# ----------------------------------------------------------------------------- truncated-at-end-of-section family
+
+PREFIX_BYTES = [0x66, 0x67, 0xf0, 0xf2, 0xf3, 0x2e, 0x36, 0x3e, 0x26, 0x64, 0x65] + list(range(0x40, 0x50)) + [0x0f, 0xc4, 0xc5, 0x62, 0x9b]
+
+
+def eos_shards(tier):
+    """Sections that END in the enumerated bytes (no sled): objdump then prints dangling prefixes, truncated
+    instructions and '(bad)' lines.  One object per shard with one section per byte sequence."""
+    sh = []
+    for cls in (64, 32):
+        sh.append({"kind": "eos", "cls": cls, "first": None})
+        firsts = PREFIX_BYTES if tier == "quick" else list(range(256))
+        for b0 in firsts:
+            sh.append({"kind": "eos", "cls": cls, "first": b0})
+    return sh
+
+
+def run_eos_shard(shard, tier, h, res, known, clauses, prop):
+    mop = h.mop(_TRIVIAL_RULE)
+    seqs = [bytes([b]) for b in range(256)] if shard["first"] is None else [bytes([shard["first"], b]) for b in range(256)]
+    src = []
+    for i, sq in enumerate(seqs):
+        src.append(f'.section .t{i:03d},"ax"\n .byte 0x90,' + ",".join(f"0x{x:02x}" for x in sq) + "\n")
+    sp = h.write(f"eos_{os.getpid()}.s", "".join(src))
+    obj = h.path(f"eos_{os.getpid()}.o")
+    r = subprocess.run(["as", f"--{shard['cls']}", sp, "-o", obj], capture_output=True, text=True)
+    if r.returncode != 0:
+        raise HarnessError("as failed: " + r.stderr[:300])
+    text = objdump_text(obj)
+    # addresses restart at 0 in every section: analyse section by section so that address-based reporting stays unique
+    parts = text.split("Disassembly of section ")
+    for part in parts[1:]:
+        t = "Disassembly of section " + part
+        problems, cnt = analyse_text(h, mop, t, clauses)
+        res.evaluations += cnt["inst_lines"] + cnt["cont_lines"]
+        res.nontrivial += cnt["inst_lines"]
+        res.count("eos_sections")
+        for clause, line, exp, obs in problems:
+            res.fail({"clause": clause, "family": "eos", "line": line, "elfclass": shard["cls"], "expected": str(exp)[:300],
+                      "observed": str(obs)[:300], "size": len(line or "")}, known)
+    if len(res.samples) < 1 and len(parts) > 3:
+        res.samples.append({"end_of_section_lines": [l for l in parts[3].split("\n") if "\t" in l][:3]})
+
+
+# ----------------------------------------------------------------------------- exotic instruction family (real as + objdump)
+
+EXOTIC64 = """
+ vmovups %zmm0,0x40(%rax,%rbx,4){%k1}
+ vmovups 0x40(%rax,%rbx,4),%zmm0{%k1}{z}
+ vaddps (%rax){1to16},%zmm1,%zmm2
+ vaddps 0x8(%rax,%rcx,8){1to16},%zmm1,%zmm2{%k2}
+ vaddps {rn-sae},%zmm1,%zmm2,%zmm3
+ vscatterdps %zmm1,0x10(%rax,%zmm2,4){%k1}
+ vgatherdps (%rax,%zmm1,4),%zmm2{%k1}
+ vpcmpeqd (%rax,%rbx,2),%zmm1,%k2{%k3}
+ kmovw %k1,%k2
+ fadd %st(1),%st
+ fxch %st(3)
+ fstp %st(2)
+ movs %ds:(%rsi),%es:(%rdi)
+ rep movsb
+ repz cmpsb %es:(%rdi),%ds:(%rsi)
+ lods %ds:(%rsi),%al
+ scas %es:(%rdi),%al
+ xlat %ds:(%rbx)
+ mov %fs:0x28,%rax
+ mov %gs:0x10(%rax,%rbx,2),%rcx
+ call *%fs:0x28
+ jmp *0x10(%rax,%rbx,8)
+ ljmp *0x10(%rax)
+ lcall *(%rax)
+ in (%dx),%al
+ out %al,(%dx)
+ enter $0x10,$0x1
+ lock cmpxchg %rax,(%rbx)
+ lock xadd %eax,0x8(%rsp,%rcx,4)
+ xacquire lock incl (%rax)
+ bnd jmp *%rax
+ notrack jmp *%rax
+ data16 rex.W nop
+ rex.WRB nop
+ cs nopw 0x0(%rax,%rax,1)
+ nopw %cs:0x0(%rax,%rax,1)
+ movabs $0x1122334455667788,%rax
+ movabs 0x1122334455667788,%al
+ vpermilps $0x1b,0x10(%rax,%rbx,4),%ymm1
+ vfmadd231ps (%rax,%rbx,1),%ymm1,%ymm2
+ pextrw $0x3,%xmm1,0x8(%rax,%rbx,2)
+ shld $0x4,%rax,0x8(%rbx,%rcx,8)
+ shld %cl,%rax,(%rbx,%rcx,8)
+ imul $0x10,0x8(%rax,%rbx,4),%rcx
+ bextr %rax,0x8(%rbx,%rcx,4),%rdx
+ crc32b 0x8(%rax,%rbx,1),%ecx
+ jrcxz .+2
+ loop .-2
+ xbegin .+6
+ .byte 0x2e,0x70,0x02
+ .byte 0x3e,0x71,0x02
+ .byte 0x66
+"""
+EXOTIC32 = """
+ mov 0x8(%bx,%si),%ax
+ addr16 mov (%bx,%di),%al
+ addr16 lea 0x10(%bp,%si),%ax
+ mov (%bx),%al
+ lcall $0x10,$0x401000
+ ljmp $0x8,$0x1000
+ bound %eax,(%ebx)
+ les (%eax),%ebx
+ pusha
+ mov %cs:(%eax,%ebx,4),%ecx
+ jcxz .+2
+ call *0x10(%eax,%ebx,4)
+ fadd %st(7),%st
+ into
+ aam $0xa
+ arpl %ax,(%eax,%ebx,2)
+"""
+
+
+def run_exotic(h, res, known, clauses):
+    mop = h.mop(_TRIVIAL_RULE)
+    for cls, srctext in ((64, EXOTIC64), (32, EXOTIC32)):
+        sp = h.write(f"exotic{cls}.s", ".text\n" + srctext)
+        obj = h.path(f"exotic{cls}.o")
+        r = subprocess.run(["as", f"--{cls}", sp, "-o", obj], capture_output=True, text=True)
+        if r.returncode != 0:
+            raise HarnessError(f"as failed on the exotic-{cls} source: " + r.stderr[:400])
+        text = objdump_text(obj)
+        problems, cnt = analyse_text(h, mop, text, clauses)
+        res.evaluations += cnt["inst_lines"]
+        res.nontrivial += cnt["inst_lines"]
+        res.count("exotic_lines", cnt["inst_lines"])
+        for clause, line, exp, obs in problems:
+            res.fail({"clause": clause, "family": "exotic", "line": line, "elfclass": cls, "expected": str(exp)[:300],
+                      "observed": str(obs)[:300], "size": len(line or "")}, known)
